@@ -60,7 +60,7 @@ CHECKS = {
          "CBOR (and JSON for rationals) round trips over a rational grid (thorough 2000/200), unit triples over a 10- (thorough 40-) unit core, incl. machine-word boundaries 2^k-1, 2^k, 2^k+1 (k=7..128) as numerator and denominator and compounds as the parser builds them from every prefix spelling x 16 unit words x 5 shapes; long decimals (10^k, 10^k+-1, 2^k, 3^k, k! at 14 lengths from 8 to 200 digits over 9 denominators, both signs); every shipped constant decoded directly and through the tool's own loader (looked up by its own words: stored value, unit, description, source); the encodings the previous builds wrote for the 8 base units (hand-written CBOR, alone and in compounds with 3 power/prefix pairs) decode to the unit; ids pairwise distinct and equal to the documented ids pinned in the harness; decoded units are the same statics.",
          "serde_cbor/serde_json are faithful carriers.", "3 C17"),
  "C19": ("exploration", E1 + ": query family x {default,--exact} through the real binary vs text rebuilt from library results",
-         "Value shapes x unit shapes x error/multi-result/fact compositions, every documented unit alone / squared / as denominator / in products and quotients / prefixed, exponents of every length from 2 to 10 digits, negative tiny/huge values, every ordered pair and triple (thorough: quadruple) of eight result kinds (two of them failed lookups) in one query - expected group by group, each asked alone, so results missing after an error are seen -, thorough also every ordered pair of 62 quantities as a product and a quotient, every documented unit under every prefix symbol and every shipped fact by its own words, both modes, run through the `any` binary built from /repo and compared line by line with the stated printing rule applied to the library's results; every printed unit is additionally re-read with the harness's own vocabulary table and must denote the computed unit (SI scale and dimensions), with a blank when it has a numerator part and none in front of a leading slash, no plural form when the value is one and none after the slash; in decimal mode the printed number is re-read and judged against the value with C08's oracle.",
+         "Value shapes x unit shapes x error/multi-result/fact compositions, every documented unit alone / squared / as denominator / in products and quotients / prefixed, exponents of every length from 2 to 10 digits, negative tiny/huge values, every ordered pair and triple (thorough: quadruple) of eight result kinds (two of them failed lookups) in one query - the sequence of result kinds must be that of the groups asked one by one, so results missing after an error are seen -, thorough also every ordered pair of 62 quantities as a product and a quotient, every documented unit under every prefix symbol and every shipped fact by its own words, both modes, run through the `any` binary built from /repo and compared line by line with the stated printing rule applied to the library's results; every printed unit is additionally re-read with the harness's own vocabulary table and must denote the computed unit (SI scale and dimensions), with a blank when it has a numerator part and none in front of a leading slash, no plural form when the value is one and none after the slash; in decimal mode the printed number is re-read and judged against the value with C08's oracle.",
          "Decimal rendering is taken from the library (C08 judges it); no exit code and no diagnostic header format is required (a diagnostic is a margin line carrying the library's message, on stdout in order or on stderr); two display-only names (`fl oz`, `g` for gforce) are aliased in the re-reader.", "3 C19"),
  "C18": ("model_checking", "explicit-state search over operation histories executed on the real Db (state = history, canonicalised by probe-set answers) plus exhaustive expression enumeration",
          "All histories of length <=3 (4) over 22 operations (11 queries incl. two phrases the search backend itself rejects, a word shared by several constants, a full word set containing it, and a three-result query failing in the middle; describe on/off) on one shared Db: every step must answer as on a fresh Db and leave the probe-set answers unchanged; all histories <=3 over 20 lookup-free unit/number/function queries against hand-written exact expectations; histories over up to 16 nearly colliding full word sets against the independently decoded constants; 440 multi-result queries (incl. casts) whose computed results must all be described whatever fails around them; every distinct single word of the data set (described constant = value returned); the real binary with/without --describe over 8 phrases (sourced and sourceless constants): every ordered pair and triple of results and every product must print each phrase's own single-phrase description lines in order; all expressions with <=3 operands over literals and fact phrases with describe on/off, where the description order must agree with the evaluation order of every pair of operands as observed directly (both made to fail: whose error is reported).",
